@@ -30,10 +30,9 @@ theorem start_wmsafe_from (as : List (Arrival α)) :
       rw [outs_cons, wmSafeGo_append]
       cases a with
       | timeout =>
-        have hst : step s (Arrival.timeout : Arrival α) = (s, [.flushBatch]) := by simp [step, hT]
-        rw [hst]
-        simp only [wmSafeGo, wmAfter, Bool.true_and]
-        exact ih s sp outW (Or.inr rel) (by simpa [elemsOf] using hin)
+        obtain ⟨h1, _, h3⟩ := timeout_ok (α := α) rel hT
+        rw [h1, Bool.true_and]
+        exact ih _ sp _ (Or.inr h3) (by simpa [elemsOf] using hin)
       | elem r e =>
         simp only [elemsOf, inputOkFrom] at hin
         cases hs : inStep sp r e with
